@@ -206,6 +206,24 @@ def tie(ctx, model_ok=True):
             dist['not-a-plain-scalar'] += 1
         if r is not None:
             res['failing'].append({'signature': r[0], 'what': r[1], 'case': {'kind': 'e2e', 'text': s}})
+    # typing is a function of the scalar and of whether it is plain -- not of what else the document contains: the same text
+    # quoted and plain in one document, in both orders and as mapping values
+    for s in ['true', 'False', '1.0', '1e5', '.inf', 'null', '~', '12', '0x1F', '2001-01-01', 'yes', '.5', '-1.5e-3', 'TRUE']:
+        try:
+            alone = load(s)
+        except Exception:       # noqa
+            continue
+        for text, want in ((f'["{s}", {s}]', [s, alone]), (f'[{s}, "{s}"]', [alone, s]), (f"['{s}', {s}, '{s}', {s}]", [s, alone, s, alone]),
+                           (f'a: "{s}"\nb: {s}\n', {'a': s, 'b': alone}), (f'a: {s}\nb: "{s}"\n', {'a': alone, 'b': s})):
+            try:
+                got = load(text)
+            except Exception as e:      # noqa
+                got = e
+            dist['pairs'] = dist.get('pairs', 0) + 1
+            same = repr(got) == repr(want)
+            if not same:
+                res['failing'].append({'signature': 'typing-depends-on-context', 'what':
+                                       f'{text!r} loads as {got!r}; each scalar alone gives {want!r}', 'case': {'kind': 'pair', 'text': text}})
     res['distribution'] = dist
     res['evaluations'] = len(allstr)
     res['distinct_nontrivial'] = len({s for s, d in zip(allstr, impl) if d % 4096 != 0})
@@ -345,6 +363,9 @@ def replay(case):
         r = tie({'tier': 'quick', 'seed': 0})
         return any(f['signature'].startswith('table-depends-on-history') for f in r['failing'])
     load = yatiml.load_function()
+    if case.get('kind') == 'pair':
+        r = tie({'tier': 'quick', 'seed': 0})
+        return any(f['case'].get('text') == case['text'] for f in r['failing'])
     o = e2e_oracle(load, case['text'])
     if o:
         print('  ', o[1])
